@@ -21,7 +21,7 @@ TEMPLATE = "# tmpl header\n\n## New page from template\n\n"
 
 
 def gen_dir(rng):
-    files = {name: c09.gen_c09_page(rng) for name in rng.sample(["alpha.zo", "beta.zo", "sub/gamma.zo"], 2)}
+    files = {name: c09.gen_c09_page(rng, refs=True) for name in rng.sample(["alpha.zo", "beta.zo", "sub/gamma.zo"], 2)}
     # pages that mention other notes' ZIDs get patched after indexing (ZIDs are allocated by db create)
     files["empty_dest.zo"] = "# Header only\n"
     files["sections_dest.zo"] = "# Sections\n\n- 240302#00 top note\n\n" + "#" * 32 + " First\n\n- 240302#01 in first\n\n" + "=" * 24 + " Sub\n\no 240302#02 in sub\n"
